@@ -338,16 +338,19 @@ def header_info(header):
 
 
 def detok(tokens):
-    """Readable rendering of a canonical token list (for reports only)."""
+    """Re-parseable rendering of a canonical token list."""
     out = []
     for t in tokens:
         if t.endswith("^") and len(t) == 2:
             out.append(t[0])
-            out.append("​")
+        elif t == "'":
+            out.append("'")
+        elif t in ("\u27e6", "\u27e7"):
+            out.append(" ")
         else:
             out.append(t)
             out.append(" ")
-    return "".join(out).replace("​", "").strip()
+    return "".join(out).strip()
 
 
 # ---------------------------------------------------------------------------------------------
@@ -406,6 +409,12 @@ class Check:
         self.rule = ""
         self.assumptions = []
         self.floor = 2
+        import glob
+        for old in glob.glob(os.path.join(VERIF, "replays", f"{prop}-{tier}-*.json")):
+            try:
+                os.unlink(old)
+            except OSError:
+                pass
 
     def count(self, n=1):
         self.evaluations += n
